@@ -422,7 +422,8 @@ def float_judgeable(conv, prec, x):
         if d == 0:
             # exactly on the boundary: decided identically only if the scaled value is exact in binary64
             return Fraction(float(s)) == s and q == fx
-        return d > Fraction(1, 10 ** 6) * max(1, s)
+        # the code's scaled value is within a few ulp of s: relative 1e-13 is > 400 ulp
+        return d > max(Fraction(1, 10 ** 9), s / 10 ** 13)
 
     if conv in "fF":
         return fixed_ok(fx, p)
